@@ -241,14 +241,14 @@ func ruleSlotAccounting(c *Ctx, r *R) {
 	for _, cs := range []cons{
 		{"parallel.mapIterator.Next", func(in ssa.Instruction) bool { return isFieldIncDec(in, "inFlight", -1) },
 			func(ret *ssa.Return) bool {
-				k, ok := ret.Results[1].(*ssa.Const)
+				k, ok := returnedValue(ret, 1).(*ssa.Const)
 				return ok && k.Value != nil && k.Value.String() == "true"
 			}},
 		{"parallel.mapStream.Next", func(in ssa.Instruction) bool {
 			snd, ok := in.(*ssa.Send)
 			rf := mapChansOf(c, "parallel.MapStream").readyField
 			return ok && rf != "" && fieldOfChan(snd.Chan) == rf
-		}, func(ret *ssa.Return) bool { return isNilConst(ret.Results[1]) }},
+		}, func(ret *ssa.Return) bool { return isNilConst(returnedValue(ret, 1)) }},
 	} {
 		fn := c.fn(cs.name)
 		if fn == nil {
@@ -384,7 +384,7 @@ func ruleMapOrder(c *Ctx, r *R) {
 				}
 				instrs(g, func(b *ssa.BasicBlock, i int, in ssa.Instruction) {
 					if ret, ok := in.(*ssa.Return); ok {
-						if bin, ok := ret.Results[0].(*ssa.BinOp); ok && bin.Op == token.LSS && path(bin.X) == pname(g.Params[0])+".idx" && path(bin.Y) == pname(g.Params[1])+".idx" {
+						if bin, ok := returnedValue(ret, 0).(*ssa.BinOp); ok && bin.Op == token.LSS && path(bin.X) == pname(g.Params[0])+".idx" && path(bin.Y) == pname(g.Params[1])+".idx" {
 							okLess = true
 						}
 					}
@@ -517,9 +517,9 @@ func ruleMapOrder(c *Ctx, r *R) {
 		}
 		// i incremented exactly once on yielding paths, never otherwise
 		yields := func(ret *ssa.Return) bool {
-			if k, ok := ret.Results[1].(*ssa.Const); ok {
+			if k, ok := returnedValue(ret, 1).(*ssa.Const); ok {
 				if k.Value == nil {
-					return isNilConst(ret.Results[1]) && strings.Contains(name, "mapStream")
+					return isNilConst(returnedValue(ret, 1)) && strings.Contains(name, "mapStream")
 				}
 				return k.Value.String() == "true"
 			}
@@ -759,7 +759,7 @@ func ruleMapStreamError(c *Ctx, r *R) {
 		// Next must return the helper's result as its error
 		instrs(fn, func(b *ssa.BasicBlock, i int, in ssa.Instruction) {
 			if ret, ok := in.(*ssa.Return); ok && len(ret.Results) == 2 {
-				if call, ok := ret.Results[1].(*ssa.Call); ok && staticCallee(&call.Call) == wf {
+				if call, ok := returnedValue(ret, 1).(*ssa.Call); ok && staticCallee(&call.Call) == wf {
 					handsOn = true
 				}
 			}
@@ -770,14 +770,14 @@ func ruleMapStreamError(c *Ctx, r *R) {
 		if !ok || !wait.Block().Dominates(b) || !handsOn {
 			return
 		}
-		if ret.Results[len(ret.Results)-1] == ssa.Value(wait) {
+		if returnedValue(ret, len(ret.Results)-1) == ssa.Value(wait) {
 			for _, gd := range guardsOf(b) {
 				if cf, ok := gd.asCmp(); ok && cf.x == ssa.Value(wait) && cf.op == token.NEQ && isNilConst(cf.y) {
 					retErr = true
 				}
 			}
 		}
-		if strings.HasSuffix(path(ret.Results[len(ret.Results)-1]), "End") {
+		if strings.HasSuffix(path(returnedValue(ret, len(ret.Results)-1)), "End") {
 			for _, gd := range guardsOf(b) {
 				if cf, ok := gd.asCmp(); ok && cf.x == ssa.Value(wait) && cf.op == token.EQL && isNilConst(cf.y) {
 					retEnd = true
